@@ -480,6 +480,18 @@ def _run(pid, P, tier, seed, scratch, t0):
                                         bounded=h.get('bounded', False)))
         inconclusive += [i for i in kani['inconclusive']]
 
+    # ---- bounded stand-ins for functions outside the verifier's reach (labelled bounded, never counted as proved)
+    bounded_fail = []
+    try:
+        import witness
+        for name, claim, bf in witness.bounded_standins(pid, REPO, scratch):
+            obligations.append(dict(id=name, cfg='replay', where=bf['fn'], text=claim, backend='bounded replay through the public API', bounded=True,
+                                    tried=(bf.get('witness_search') or {}).get('requests')))
+            if bf.get('replayed'):
+                bounded_fail.append(bf)
+    except Exception as ex_:
+        inconclusive.append(dict(message='bounded stand-in could not run: %s' % ex_, rendered='', cfg='replay'))
+
     # ---- failures relevant to this property
     rel_fail = []
     by_cfg = {}
@@ -534,6 +546,8 @@ def _run(pid, P, tier, seed, scratch, t0):
                                      message=h['claim'], cfg='cbmc', rendered=h.get('output', '')[-6000:],
                                      witness=h.get('witness'), replayed=h.get('replayed'),
                                      repo_file=h.get('repo_file'), repo_line=h.get('repo_line'), expr=''))
+
+    rel_fail += bounded_fail
 
     # vacuity: every probe must have failed
     vac_failed = set()
@@ -633,7 +647,7 @@ def _run(pid, P, tier, seed, scratch, t0):
                 if f['fn'] == o['where'] and (not f['clause'] or f['kind'] in ('overflow', 'bounds', 'unreachable',
                                                                                 'termination', 'divzero', 'precondition', 'panic')):
                     bad = f
-            elif o['id'].startswith('KANI.'):
+            elif o['id'].startswith('KANI.') or o['id'].startswith('BOUNDED.'):
                 if f['id'] == o['id']:
                     bad = f
             elif f['clause'] == o['id']:
